@@ -49,7 +49,16 @@ def gen_workload(seed, wi):
             u["type"] == "deletion" for u in units):
         normal = [a["name"] for a in g["alleles"] if a["kind"] == "normal"]
         units.append({"type": "extra", "allele": rng.choice(normal), "depth": rng.choice([0.4, 0.5, 0.6])})
-    params = {"gap": rng.choice([0, 0.1, 0.3, 0.5, 0.5, 1.0]), "max_minor_solutions": rng.choice([1, 1, 2])}
+    params = {"gap": rng.choice([0, 0.1, 0.3, 0.5, 1.0, 1.0, 2.0]), "max_minor_solutions": rng.choice([1, 1, 2])}
+    if g["pregions"] and wi % 3 == 0:
+        # two structures that explain the depths almost equally well, with major solutions that fit both:
+        # a fractional extra copy of the allele the sample already carries, and a gap that admits both
+        base = rng.choice([a["name"] for a in g["alleles"] if a["kind"] == "normal"])
+        other = rng.choice([a["name"] for a in g["alleles"] if a["kind"] == "normal"])
+        smp["genes"][g["name"]] = [{"type": "normal", "allele": base}, {"type": "normal", "allele": other},
+                                   {"type": "extra", "allele": base, "depth": rng.choice([0.45, 0.5, 0.55])}]
+        smp["thin"] = []
+        params = {"gap": rng.choice([0.5, 1.0, 1.0, 2.0]), "max_minor_solutions": 1}
     return {"world": world, "samples": {"s0": smp}, "params": params, "build": "hg19",
             "out": rng.choice(["aldy", "vcf", "simple", "simple", "none"]),
             "hashseed": rng.choice([0, 1, 2, 3]),
@@ -202,6 +211,7 @@ def update_stats(acc, plan, out):
         acc["ge2_reported"] += p["ge2_reported"]
         acc["selection_checked"] += p["selection_checked"]
         acc["chains_checked"] += p["chains_checked"]
+        acc["minor_ge2_structs"] = acc.get("minor_ge2_structs", 0) + p.get("minor_stage_ge2_structures", 0)
         if r["exc"]:
             acc["errors"] += 1
         for st in p["empty_stages"]:
@@ -246,6 +256,7 @@ def evidence(acc):
                 "runs_ending_in_reported_error": acc["errors"],
                 "selection_rule_recomputations": acc["selection_checked"],
                 "chains_checked": acc["chains_checked"],
+                "minor_stage_calls_with_ge2_structures": acc.get("minor_ge2_structs", 0),
             },
             "exhaustive_over": "fault kind x solve index (first 40 solves) of every workload's genotype() call, "
                                "spread over the plans of a batch; workloads are sampled",
@@ -386,6 +397,8 @@ def oracle(res_list, exc, output, out_kind, sample_name, gene_name, viol, probes
         if c["stage"] == "solve_minor_model" and c["ret"] is not None:
             for obj, sc in zip(c["ret"], c["ret_scores"]):
                 raw[id(obj)] = sc
+    if len({_cn_key(m.cn_solution) for m in mi["args"][0][2]}) >= 2:
+        probes["minor_stage_ge2_structures"] = probes.get("minor_stage_ge2_structures", 0) + 1
     passed_scores = [m.score for m in mi["args"][0][2]]
     if passed_scores:
         base = min(passed_scores)
